@@ -1523,6 +1523,8 @@ type ServerSession struct {
 	// via jsonrpc2.Connection.Cancel to avoid deadlocking on the jsonrpc2
 	// drain. See modelcontextprotocol/go-sdk#1160.
 	listenIDs []jsonrpc.ID
+	// closing is set once Close has collected listenIDs.
+	closing bool
 }
 
 func (ss *ServerSession) updateState(mut func(*ServerSessionState)) {
@@ -1975,8 +1977,17 @@ func (ss *ServerSession) handle(ctx context.Context, req *jsonrpc.Request) (any,
 	// avoid deadlocking on the jsonrpc2 drain.
 	if req.Method == methodSubscriptionsListen {
 		ss.mu.Lock()
-		ss.listenIDs = append(ss.listenIDs, req.ID)
+		closing := ss.closing
+		if !closing {
+			ss.listenIDs = append(ss.listenIDs, req.ID)
+		}
 		ss.mu.Unlock()
+		if closing {
+			// Close has already cancelled the listens it knew about; this one was
+			// still queued then. Cancel it as well, or it would park forever and
+			// Close would never return.
+			ss.conn.Cancel(req.ID)
+		}
 	}
 
 	res, err := handleReceive(ctx, ss, req)
@@ -2087,6 +2098,7 @@ func (ss *ServerSession) Close() error {
 	// on ctx.Done and would deadlock conn.Close (which waits for in-flight
 	// requests to drain).
 	ss.mu.Lock()
+	ss.closing = true // a listen handled from now on is cancelled by handle
 	ids := ss.listenIDs
 	ss.listenIDs = nil
 	ss.mu.Unlock()
